@@ -1568,6 +1568,29 @@ func (c *immuClient) VerifiedTxByID(ctx context.Context, tx uint64) (*schema.Tx,
 		targetAlh = schema.DigestFromProto(state.TxHash)
 	}
 
+	// the returned transaction must be the proven one: its header, with the entries hash
+	// re-calculated from the returned entries, must hash to the proven Alh
+	if vTx.Tx == nil || vTx.Tx.Header == nil || int(vTx.Tx.Header.Nentries) != len(vTx.Tx.Entries) {
+		return nil, store.ErrCorruptedData
+	}
+
+	rtx := schema.TxFromProto(vTx.Tx)
+
+	err = rtx.BuildHashTree()
+	if err != nil {
+		return nil, err
+	}
+
+	if rtx.Header().Eh != schema.DigestFromProto(vTx.Tx.Header.EH) {
+		return nil, store.ErrCorruptedData
+	}
+
+	txAlh := rtx.Header().Alh()
+
+	if (state.TxId <= tx && txAlh != targetAlh) || (state.TxId > tx && txAlh != sourceAlh) {
+		return nil, store.ErrCorruptedData
+	}
+
 	if state.TxId > 0 {
 		err := c.verifyDualProof(
 			ctx,
